@@ -454,11 +454,12 @@ def gen(tier, rng):
     # 1. exhaustive: every operator x every (operand type, operand type) pair with a field on at least one side
     #    (26 field types, 11 ndarray dtypes, 11 numpy-scalar dtypes, 3 Python scalar types), length-3 data
     cnt = 0
-    for (a, b) in pairs:
-        for op in BOPS:
-            cnt += 1
-            store = (cnt % (4 if big else 16) == 0)
-            yield {'op': op, 'l': mk_operand_desc(a, 0, 3), 'r': mk_operand_desc(b, 1, 3), 'df': store}
+    for (va, vb) in ([(0, 1), (1, 2), (2, 0)] if big else [(0, 1)]):
+        for (a, b) in pairs:
+            for op in BOPS:
+                cnt += 1
+                store = (cnt % (4 if big else 16) == 0)
+                yield {'op': op, 'l': mk_operand_desc(a, va, 3), 'r': mk_operand_desc(b, vb, 3), 'df': store}
     # 2. unary operators on every field type, lengths 0..3, with and without dataframe assignment
     for a in ft:
         for op in UOPS:
